@@ -34,6 +34,24 @@ Proof.
     + apply IH in H. cbn [length] in *. split; [lia|intros; lia].
 Qed.
 
+(** a found boundary: the byte at the returned position is '>' and lies inside the scanned part *)
+Lemma fa_scan_found l : forall pos acc p a, fa_scan l pos acc = (true, p, a) ->
+  p < pos + length l /\ nth_error l (p - pos) = Some GT.
+Proof.
+  induction l as [|c rest IH]; intros pos acc p a H; cbn [fa_scan] in H; [discriminate|].
+  destruct (c =? LF).
+  - destruct rest as [|d rest']; [discriminate|].
+    destruct (d =? GT) eqn:Ed.
+    + inversion H; subst. apply Nat.eqb_eq in Ed. subst d. cbn [length].
+      replace (S pos - pos) with 1 by lia. split; [lia|reflexivity].
+    + pose proof (fa_scan_pos _ _ _ _ _ _ H) as [Hp _].
+      apply IH in H. destruct H as [H1 H2]. cbn [length] in *. split; [lia|].
+      replace (p - pos) with (S (p - S pos)) by lia. exact H2.
+  - pose proof (fa_scan_pos _ _ _ _ _ _ H) as [Hp _].
+    apply IH in H. destruct H as [H1 H2]. cbn [length] in *. split; [lia|].
+    replace (p - pos) with (S (p - S pos)) by lia. exact H2.
+Qed.
+
 (** the accumulated line ends: old ones kept, new ones lie in [pos, p) and increase *)
 Lemma fa_scan_acc l : forall pos acc f p a, fa_scan l pos acc = (f, p, a) ->
   exists new, a = acc ++ new /\ Forall (fun x => pos <= x < p) new /\
